@@ -853,6 +853,14 @@ func opGC(r *Run, cl *clientState, idx int, op *Op) {
 		if r.blockedByDrop(err) {
 			return // the rewrite's write-back was rejected while a drop had writes blocked
 		}
+		if strings.Contains(err.Error(), badger.ErrTxnTooBig.Error()) {
+			// the rewrite sizes an entry with its timestamp suffix and counts the value on
+			// top: an entry that just fitted its transaction does not fit the write-back
+			// batch; GC reports the error and leaves everything as it was (size arithmetic,
+			// C28's subject; reads keep being checked)
+			r.probe("gc_error_txn_too_big")
+			return
+		}
 		if strings.Contains(err.Error(), "already marked for deletion") {
 			// a second GC picked a file whose deletion an earlier GC deferred because
 			// iterators were open: the call reports an error, reads are unaffected
